@@ -141,6 +141,8 @@ var c01Twins = [][]string{
 	{"{{ gints|sort|join(',') }}", "{{ gints|join(';') }}", "{{ gints|reverse|join(',') }}", "{{ gints|first }}{{ gints|last }}", "{{ gints|merge([1])|join(',') }}|{{ gints|length }}"},
 	{"{{ gstrs|sort|join(',') }}", "{{ gstrs|join(';') }}", "{{ gstrs|reverse|join(',') }}", "{{ gfl|sort|join(',') }}", "{{ gfl|join(';') }}", "{{ gstrs|slice(1)|merge(['z'])|join }}|{{ gstrs|length }}"},
 	{"{{ glist|sort|join(',') }}", "{{ glist|join(';') }}", "{{ glist|reverse|join(',') }}", "{{ glist|merge([9])|join(',') }}", "{{ glist|slice(0, 2)|merge([8])|join(',') }}|{{ glist|join }}", "{% set glist = glist|merge([7]) %}{{ glist|join }}"},
+	// a global that differs from engine to engine
+	{"{{ engineId }}", "<{{ engineId }}>{% include 'sbx_part' sandboxed %}", "{{ engineId|lower }}{{ 'q'|upper }}", "{% include 'part' %}{{ engineId }}"},
 	// one struct type that some templates meet as a value and others through a pointer, with methods on either receiver:
 	// what the process remembers about (type, name) must not depend on which of the two it met first
 	{"{{ acctV.Greeting }}|{{ acctV.Name }}", "{{ acctP.Greeting }}|{{ acctP.Name }}", "{{ acctV.Label }}", "{{ acctP.Label }}|{{ acctP.Greeting }}", "{% for a in accts %}{{ a.Greeting }}{{ a.Label }};{% endfor %}", "{% for a in acctPs %}{{ a.Greeting }}{{ a.Label }};{% endfor %}"},
@@ -206,7 +208,7 @@ func (p *c01) gen(seed uint64, idx int) *c01History {
 	}
 	for i := 0; i < n; i++ {
 		op := c01Op{Eng: r.Intn(h.nEng), CtxK: r.Intn(3)}
-		switch k := r.Intn(24); {
+		switch k := r.Intn(26); {
 		case k < 8:
 			op.Kind, op.Name = "render", entries[r.Intn(len(entries))]
 		case k < 10:
@@ -255,8 +257,16 @@ func (p *c01) gen(seed uint64, idx int) *c01History {
 			op.Kind, op.N = "setDebugOther", r.Intn(2)
 		case k < 23:
 			op.Kind, op.N = "gc", r.Range(1, 3)
-		default:
+		case k < 24:
 			op.Kind, op.N = "otherActivity", r.Intn(4)
+		default:
+			// a template object of this engine (a parsed handle, or the cached template of a name) is also registered on
+			// another engine under a name nothing uses: this engine's renders of it are none of that engine's business
+			op.Kind, op.Name, op.Handle = "shareTemplate", entries[r.Intn(len(entries))], -1
+			if len(h.handles) > 0 && r.Bool() {
+				op.Handle = r.Intn(len(h.handles))
+				op.Eng = h.hEng[op.Handle]
+			}
 		}
 		h.ops = append(h.ops, op)
 	}
@@ -319,6 +329,7 @@ func c01NewEngine(st *c01Engine) (*twig.Engine, *twig.ArrayLoader) {
 	e.AddGlobal("linkTail", tail)
 	e.AddGlobal("linkHead", c01Link{Name: "head", Next: &c01Link{Name: "mid", Next: &tail}})
 	e.AddGlobal("links", []c01Link{tail, {Name: "h2", Next: &tail}})
+	e.AddGlobal("engineId", fmt.Sprintf("E%d", st.idx))
 	e.AddGlobal("acctV", c01Acct{Name: "Ann"})
 	e.AddGlobal("acctP", &c01Acct{Name: "Bob"})
 	e.AddGlobal("accts", []c01Acct{{Name: "c"}, {Name: "d"}})
@@ -609,6 +620,24 @@ func (p *c01) Run(rec *core.Recorder, seed uint64, idx int, tier string) {
 					o.Msg = err.Error()
 				}
 				compare(k, o, false)
+			}
+		case "shareTemplate":
+			var t *twig.Template
+			if op.Handle >= 0 {
+				t = handles[op.Handle]
+			} else if e.IsCacheEnabled() {
+				t, _ = e.Load(op.Name)
+			}
+			if t != nil {
+				var target *twig.Engine
+				if h.nEng > 1 {
+					target = engines[(op.Eng+1)%h.nEng]
+				} else {
+					target = twig.New()
+					target.AddGlobal("engineId", "THROWAWAY")
+				}
+				target.RegisterTemplate(fmt.Sprintf("shared_%d_%d", k, op.Handle), t)
+				rec.Count("templates-shared-with-another-engine", 1)
 			}
 		case "reregister":
 			st := h.state(k)[op.Eng]
